@@ -80,7 +80,7 @@ def main(argv=None):
 
     with mp.get_context('fork').Pool(args.jobs) as pool:
         # ---- replay tier: every saved case first -----------------------------------------------------
-        saved = sorted(glob.glob(os.path.join(VERIF, 'replays', prop_id, '*.json')))
+        saved = sorted(f for f in glob.glob(os.path.join(VERIF, 'replays', prop_id, '*.json')) if not os.path.basename(f).startswith('timeout-'))
         replayed = 0
         for path, (status, info) in pool.imap_unordered(common._replay_worker, [(prop_id, p) for p in saved]):
             replayed += 1
@@ -110,6 +110,7 @@ def main(argv=None):
     evaluations = 0
     discarded = 0
     budget_skipped = 0
+    timeout_cases = []
     excluded = collections.Counter()
     for r in results:
         ps = per_sub.setdefault(r['sub'], {'evaluations': 0, 'distinct_nontrivial': set(), 'shards': 0, 'seeds': [],
@@ -129,6 +130,13 @@ def main(argv=None):
         for l, c in r['labels'].items():
             labels[r['sub'] + ':' + l] += c
         excluded.update(r['excluded_known'])
+        timeout_cases.extend(r.get('timeout_cases', []))
+        for tcase in r.get('timeout_cases', []):
+            # inconclusive cases are kept (git-ignored) so that they can be looked at: ./check ID --replay <file>
+            rdir = os.path.join(common.REPLAY_DIR, prop_id)
+            os.makedirs(rdir, exist_ok=True)
+            with open(os.path.join(rdir, 'timeout-%s-%08x.json' % (r['sub'], common.case_hash(tcase) & 0xffffffff)), 'w') as fh:
+                json.dump({'property': prop_id, 'subcheck': r['sub'], 'case': tcase, 'clause': 'case_timeout'}, fh, indent=1, sort_keys=True)
         if r['shard'] == 0:
             samples.extend(r['samples'][:2])
         if r['harness_error']:
@@ -187,6 +195,7 @@ def main(argv=None):
                 'missing_classes': missing,
                 'discarded_by_assume': discarded,
                 'budget_skipped': budget_skipped,
+                'case_timeouts': timeout_cases[:4],
                 'excluded_known': dict(excluded),
                 'replays_rerun': replayed,
                 'subchecks': {k: {'evaluations': v['evaluations'], 'distinct_nontrivial': len(v['distinct_nontrivial']),
